@@ -270,19 +270,30 @@ func c17DagRun(s *c17DagScn) (c17DagObs, []Mon, string) {
 			}
 			pos[x] = i
 		}
-		if _, hasEmpty := idset[""]; !hasEmpty {
-			for _, id := range ids {
-				if _, ok := pos[id]; !ok {
-					mons = append(mons, Mon{Sig: "C17:sort-not-topological", Why: "node " + id + " not in the order"})
+		// Props sort_any_identifier: one entry per node; the nodes with a non-empty identifier are
+		// listed dependencies-first; the empty identifier, if it is a node, never occupies a slot
+		// of the results slice and is therefore what the last (unused) slot holds
+		_, hasEmpty := idset[""]
+		for _, id := range ids {
+			if _, ok := pos[id]; !ok {
+				mons = append(mons, Mon{Sig: "C17:sort-not-topological", Why: "node " + id + " not in the order"})
+			}
+		}
+		for u, vs := range edges {
+			for _, v := range vs {
+				if u == "" || v == "" {
+					continue
+				}
+				if pos[v] >= pos[u] {
+					mons = append(mons, Mon{Sig: "C17:sort-not-topological", Why: fmt.Sprintf("%s depends on %s but is not after it", u, v)})
 				}
 			}
-			for u, vs := range edges {
-				for _, v := range vs {
-					if pos[v] >= pos[u] {
-						mons = append(mons, Mon{Sig: "C17:sort-not-topological", Why: fmt.Sprintf("%s depends on %s but is not after it", u, v)})
-					}
-				}
-			}
+		}
+		if hasEmpty && len(sorted) > 0 && sorted[len(sorted)-1] != "" {
+			mons = append(mons, Mon{Sig: "C17:sort-not-topological", Why: "the empty identifier is a node but the last slot holds " + sorted[len(sorted)-1]})
+		}
+		if len(sorted) != len(ids) {
+			mons = append(mons, Mon{Sig: "C17:sort-not-topological", Why: fmt.Sprintf("%d nodes, %d entries", len(ids), len(sorted))})
 		}
 	} else if obs.SortErr == "cycle" {
 		if !cyclic {
